@@ -618,3 +618,90 @@ Proof.
   specialize (Hle (count_oedges evs + 1 - stages)%nat).
   destruct (slot_at sl _) as [|[|x]]; [reflexivity|reflexivity|lia].
 Qed.
+
+(* ------------------------------------------------------------------ FFSynchronizer under the output domain's reset *)
+Lemma ffr_erase_gen sh init async rl evs : forall f r,
+  (async = false /\ rl = true) \/ (r = false /\ rst_never evs = true) ->
+  fr_ff (fold_left (ffr_step sh init async rl) evs (FFR f r)) = fold_left (ff_step sh) (erase_rst evs) f.
+Proof.
+  induction evs as [|e t IH]; intros f r H; [reflexivity|].
+  destruct e as [e'|b].
+  - assert (Hstep : ffr_step sh init async rl (FFR f r) (Rev e') = FFR (ff_step sh f e') r).
+    { destruct e'; try reflexivity; cbn [ffr_step fr_ff fr_rst ffr_process ff_step];
+        (destruct H as [[_ ->]|[-> _]]; [rewrite andb_false_r|]; reflexivity). }
+    cbn [fold_left]. rewrite Hstep. cbn [erase_rst flat_map app fold_left]. apply IH.
+    destruct H as [H|[Hr Hn]]; [left; exact H|right; split; [exact Hr|exact Hn]].
+  - cbn [fold_left ffr_step fr_ff fr_rst erase_rst flat_map app].
+    destruct H as [[-> ->]|[-> Hn]].
+    + cbn [andb]. apply IH. left; auto.
+    + destruct b; [discriminate|]. rewrite !andb_false_r. apply IH. right; auto.
+Qed.
+
+(* default flops (reset_less) in a sync-reset domain: the reset has no effect whatsoever *)
+Lemma ffr_reset_less_ignores_reset sh stages init i0 evs :
+  fr_ff (ffr_run sh stages init false true i0 evs) = ff_run sh stages init i0 (erase_rst evs).
+Proof. unfold ffr_run, ffr_start, ff_run. apply ffr_erase_gen. left; auto. Qed.
+
+(* reset never asserted: any domain kind, resettable or not, behaves as the reset-free model *)
+Lemma ffr_no_reset sh stages init async rl i0 evs : rst_never evs = true ->
+  fr_ff (ffr_run sh stages init async rl i0 evs) = ff_run sh stages init i0 (erase_rst evs).
+Proof. intros H. unfold ffr_run, ffr_start, ff_run. apply ffr_erase_gen. right; auto. Qed.
+
+Lemma ff_chain_length sh n init : length (ff_chain sh n init) = n.
+Proof. unfold ff_chain. apply repeat_length. Qed.
+
+Lemma ffr_length sh init async rl evs : forall s,
+  length (ff_flops (fr_ff (fold_left (ffr_step sh init async rl) evs s))) = length (ff_flops (fr_ff s)).
+Proof.
+  induction evs as [|e t IH]; intros s; [reflexivity|]. cbn [fold_left]. rewrite IH.
+  destruct s as [[i fl] r]. destruct e as [e'|b].
+  - destruct e'; cbn [ffr_step fr_ff fr_rst ff_step ffr_process ff_flops ff_in]; try reflexivity;
+      (destruct (r && negb rl); [apply ff_chain_length|apply shift_in_length]).
+  - cbn [ffr_step fr_ff fr_rst]. destruct (async && negb r && b); [|reflexivity].
+    cbn [ffr_process ff_flops ff_in]. destruct (b && negb rl); [apply ff_chain_length|apply shift_in_length].
+Qed.
+
+Lemma ff_latency_from sh n init cur tail : (1 <= n)%nat ->
+  ff_out (fold_left (ff_step sh) tail (FF cur (ff_chain sh n init))) =
+  if (count_oedges tail <? n)%nat then norm sh (ff_ctor_init init)
+  else nth (count_oedges tail - n) (sampled sh cur tail) 0%Z.
+Proof.
+  intros Hn. unfold ff_chain. rewrite <- hist_nil. rewrite ff_run_gen. unfold ff_out. cbn [ff_flops app].
+  rewrite last_hist by assumption. rewrite sampled_length. reflexivity.
+Qed.
+
+Lemma fold_left_map_Rev sh init async rl tail : forall f,
+  fold_left (ffr_step sh init async rl) (map Rev tail) (FFR f false) =
+  FFR (fold_left (ff_step sh) tail f) false.
+Proof.
+  induction tail as [|e t IH]; intros f; [reflexivity|].
+  cbn [map fold_left]. rewrite <- IH. f_equal.
+  destruct e; reflexivity.
+Qed.
+
+(* resettable flops: an output edge with rst high is a power-up.  After it (rst released, not
+   asserted again) the output is init for the next stages - 1 edges, then the input as sampled
+   since the reset *)
+Lemma ffr_reset_is_power_up sh stages init async i0 evs tail : (1 <= stages)%nat ->
+  let s := ffr_run sh stages init async false i0 evs in
+  fr_rst s = true ->
+  ff_out (fr_ff (ffr_run sh stages init async false i0 (evs ++ Rev Eo :: Rrst false :: map Rev tail))) =
+  if (count_oedges tail <? stages)%nat then norm sh (ff_ctor_init init)
+  else nth (count_oedges tail - stages) (sampled sh (ff_in (fr_ff s)) tail) 0%Z.
+Proof.
+  intros Hs s Hr. unfold ffr_run. rewrite fold_left_app. fold (ffr_run sh stages init async false i0 evs). fold s.
+  assert (Hl : length (ff_flops (fr_ff s)) = stages).
+  { unfold s, ffr_run. rewrite ffr_length. cbn. apply ff_chain_length. }
+  destruct s as [[cur fl] r]. cbn [fr_rst fr_ff ff_flops ff_in] in *. subst r.
+  cbn [fold_left ffr_step fr_ff fr_rst ffr_process ff_flops ff_in andb negb].
+  rewrite andb_false_r. rewrite Hl. rewrite fold_left_map_Rev. cbn [fr_ff].
+  apply ff_latency_from. assumption.
+Qed.
+
+(* F7 seen from C17: reset_less flops in an async-reset domain move on every rise of rst, so the
+   input reaches the output without any output-clock edge *)
+Lemma ffr_async_reset_rise_refuted :
+  exists evs, count_oedges (erase_rst evs) = O /\
+              ff_out (fr_ff (ffr_run (Sh 4 false) 2 (Some 3) true true 9 evs)) = 9%Z /\
+              ff_out (ff_run (Sh 4 false) 2 (Some 3) 9 (erase_rst evs)) = 3%Z.
+Proof. exists [Rrst true; Rrst false; Rrst true]. vm_compute. auto. Qed.
